@@ -89,6 +89,9 @@ def _report(tag, pairs):
     return tag + '|' + render(tuple((name, _label(v)) for name, v in pairs))
 
 
+report = _report
+
+
 def register_values(values):
     for k, v in values.items():
         if v is not None:
@@ -116,6 +119,9 @@ def definition(overload, classes):
     if fd is not None:
         return fd
     tag, params, kind, no_kwargs = overload
+    if any(p[1] == 'hidden' and p[2].startswith('Super/') for p in params):
+        fd = _fds[key] = _override(overload, classes)
+        return fd
     sig, ns, star, dflt = [], {'_report': _report}, False, False
     for (name, k, t, nullable, hasdef) in params:
         py = python_name(name)
@@ -159,6 +165,27 @@ def definition(overload, classes):
     fd = specs.get_function_definition(fn, name='foo', convention=CONVENTION)
     fd.meta['tag'] = tag
     _fds[key] = fd
+    return fd
+
+
+def _override(overload, classes):
+    """foo(x, base: Super(method=...)): returns its tag + '>' + the result of its
+    base implementation, called with x or without arguments."""
+    tag, params, kind, no_kwargs = overload
+    (xname, xkind, t, nullable, hasdef), (bname, bkind, st, _, _) = params
+    assert (xname, xkind, bname, bkind, hasdef, no_kwargs) == ('x', 'pos', 'base', 'hidden', False, False), overload
+    variant, mode = st.split('/')[1:]
+
+    def foo(x, base):
+        return tag + '>' + (base(x) if mode == 'arg' else base())
+    fn = specs.parameter('x', yaqltypes.PythonType(classes[t], nullable))(foo)
+    fn = specs.inject('base', yaqltypes.Super(method={'None': None, 'True': True, 'False': False}[variant]))(fn)
+    if kind == 'method':
+        fn = specs.method(fn)
+    elif kind == 'ext':
+        fn = specs.extension_method(fn)
+    fd = specs.get_function_definition(fn, name='foo', convention=CONVENTION)
+    fd.meta['tag'] = tag
     return fd
 
 
